@@ -57,7 +57,7 @@ def suite_timing(ctx, sequences=True):
     for rt in (None, 5120, 1024, 700, 20000):
         for p2, p2s in ((1024, 5120), (700, 700), (5120, 1024), (1, 3), (6000, 30000)):
             for percall in (None, 0, 300, 2048):
-                for tim in (None, (50, 2000), (9000, 100)):
+                for tim in (None, (50, 2000), (9000, 100), (0, 0), (0, 300), (300, 0)):    # adopted server values, 0 included (a legal field value)
                     cfgs.append((rt, p2, p2s, percall, tim))
     nper = ctx.n(4, 60)
     kmax = ctx.n(6, 40)
